@@ -129,7 +129,7 @@ func (s *schema) getter(sh shape) getter {
 		if !ok {
 			panic("c15: unknown field " + name)
 		}
-		return sh.tok[i]
+		return s.tokAt(sh, i)
 	}
 }
 
